@@ -16,6 +16,8 @@ N_THOROUGH = 1500000
 WALL_QUICK = 100
 WALL_THOROUGH = 1500
 
+REACH_FOCUS = {'ebb3_serial': ['var_write', 'var_read', 'var_write_int32', 'var_read_int32', 'write_nickname', 'query_nickname'], 'ebb3_motion': ['motors_enable', 'motors_query_enabled', 'motors_disable']}
+
 RULE = ("Scenario = one stateful firmware-3 board (prior RAM, prior motor state (en1, en2, mode) drawn from all 20 "
         "combinations) + a connected EBBMotionWrap + a history of 5..40 ops: var_write_int32 (values over all of int32, "
         "weighted to byte / sign boundaries; slots 0..28, overlapping ranges in any order), var_read_int32, var_write, "
